@@ -22,11 +22,12 @@ from engine import common, tlc, replay, runpy
 from bind import _pycalls as pc
 
 PROP = "C06"
-INVARIANTS = ["SigWellFormed", "StillAccepted", "BindPreserved", "ExplicitPassed", "SurvivorsKeep"]
+INVARIANTS = ["SigWellFormed", "StillAccepted", "BindPreserved", "ExplicitPassed", "SurvivorsKeep",
+              "DiscardedLeavesNoTrace"]
 
 
-def constants(kinds, max_changers, max_params=3, ko="NoKo"):
-    return {"MaxParams": max_params, "MaxArgs": 3, "Kinds": tlc.Sub(kinds), "Stars": True, "KoSet": tlc.Sub(ko),
+def constants(kinds, max_changers, max_params=3, ko="NoKo", previews=0):
+    return {"MaxRecv": 3, "MaxPreviews": previews, "PreviewKinds": tlc.Sub("AllPreviews" if previews else "NoPreview"),"MaxParams": max_params, "MaxArgs": 3, "Kinds": tlc.Sub(kinds), "Stars": True, "KoSet": tlc.Sub(ko),
             "MaxChangers": max_changers, "Task": "sig", "MaxSites": 1,
             "Uses": tlc.Sub("PlainOnly"), "Cxs": tlc.Sub("NoCx"), "Hosts": tlc.Sub("NoHost"), "Dups": tlc.Sub("NoDup")}
 
@@ -107,7 +108,7 @@ def run_behaviour(item):
             with open(os.path.join(root, p), "w") as f:
                 f.write(s)
         out0, exc0 = pc.run_entry(root, "n.py")
-        want0 = [(pc.binding_obj(s["b0"], sig0, k), pc.INTRO_VALUE) for k, s in enumerate(sites)]
+        want0 = [(pc.binding_obj(s["b0"], sig0, k, kind), pc.INTRO_VALUE) for k, s in enumerate(sites)]
         if exc0 or pc.parse_output_lines(out0) != want0:
             return {"machinery": "rendered program does not print the spec's bindings: exc=%s\n%s\n%s" % (
                 exc0, out0[:600], files["m.py"] + files["n.py"]), "item": [beh["chg"], sig0, kind]}
@@ -118,21 +119,42 @@ def run_behaviour(item):
             if not via_param:
                 path, offset = offset_for(files, info, kind, at)
             exc = None
-            try:
+
+            def intro_changes():
+                m = files["m.py"]
+                goff = m.index("_show(locals(), G)") + len("_show(locals(), ")
+                return ip_mod.IntroduceParameter(project, project.get_file("m.py"), goff).get_changes("p")
+
+            def compute():
                 if via_param:
                     # C04: InlineParameter through create_inline on the parameter in the header
                     from rope.refactor import inline as inline_mod
                     m = files["m.py"]
                     h0 = m.index("def " + pc.fname(kind) + "(")
                     poff = m.index(at[1] + "=", h0)
-                    changes = inline_mod.create_inline(project, project.get_file("m.py"), poff).get_changes()
-                elif beh["chg"][0]["op"] == "intro":
-                    m = files["m.py"]
-                    goff = m.index("_show(locals(), G)") + len("_show(locals(), ")
-                    changes = ip_mod.IntroduceParameter(project, project.get_file("m.py"), goff).get_changes("p")
-                else:
-                    changers = make_changers(cs_mod, beh, sig0, off)
-                    changes = cs_mod.ChangeSignature(project, project.get_file(path), offset).get_changes(changers)
+                    return inline_mod.create_inline(project, project.get_file("m.py"), poff).get_changes()
+                if beh["chg"][0]["op"] == "intro":
+                    return intro_changes()
+                changers = make_changers(cs_mod, beh, sig0, off)
+                return cs_mod.ChangeSignature(project, project.get_file(path), offset).get_changes(changers)
+
+            try:
+                # requests that are computed and thrown away first (spec action Discard): they must
+                # leave no trace, and the same request computed twice must give the same changes
+                first_same = None
+                for kind_p in beh.get("pre", []):
+                    try:
+                        discarded = intro_changes() if kind_p == "intro" else compute()
+                    except exceptions.RopeError:
+                        discarded = None
+                    if kind_p == "same" and discarded is not None:
+                        first_same = discarded.get_description()
+                    del discarded
+                if beh.get("pre") and {p: open(os.path.join(root, p)).read() for p in files} != files:
+                    res["fails"].append("DiscardedLeavesNoTrace")
+                changes = compute()
+                if first_same is not None and changes.get_description() != first_same:
+                    res["fails"].append("PreviewRepeatable")
                 project.do(changes)
             except exceptions.RopeError as e:
                 res["outcome"] = "refused"
@@ -191,7 +213,7 @@ def judge(res, beh, kind, sig1, sites, info, after, root):
     detail["sig_got"] = got_sig
     # (3) running prints, at every site, the bindings the spec expects
     out1, exc1 = pc.run_entry(root, "n.py")
-    want1 = [(pc.binding_obj(s["exp"], sig1, k), pc.INTRO_VALUE) for k, s in enumerate(sites)]
+    want1 = [(pc.binding_obj(s["exp"], sig1, k, kind), pc.INTRO_VALUE) for k, s in enumerate(sites)]
     got1 = pc.parse_output_lines(out1)
     if exc1 or got1 != want1:
         fails.append("BindPreserved")
@@ -262,8 +284,9 @@ def features(beh, r):
     header = ""
     after = r.get("after") or {}
     for line in after.get("m.py", "").splitlines():
-        if line.lstrip().startswith("def f(") or line.lstrip().startswith("def __init__("):
+        if line.lstrip().startswith("def %s(" % pc.fname(r["kind"])):
             header = line
+            break
     got = d.get("sig_got")
     if sig0.get("ko") and "Parses" in clauses and re.search(r"\*\s*\)", header):
         cause = "keyword-only-parameter-dropped"
@@ -282,6 +305,8 @@ def features(beh, r):
     elif sig0["va"] and adds_default_only and clauses == ["BindPreserved"] and all_bad_have_extras:
         cause = "extra-positionals-shift-into-new-defaulted-parameter"
     key = {"clauses": clauses, "cause": cause}
+    if beh.get("pre"):
+        key["discarded_before"] = list(beh["pre"])
     if cause is None:
         def cls(s):
             c = s["c0"]
@@ -315,9 +340,9 @@ def parallel(thunks):
         return [f.result() for f in [ex.submit(t) for t in thunks]]
 
 
-def tlc_export(verdict, kinds, max_changers, max_params, coverage=False, label="", ko="NoKo"):
-    cfg = os.path.join(common.SCRATCH_BASE, "c06_%d_%s.cfg" % (os.getpid(), common.digest([kinds, max_changers, max_params, ko])))
-    tlc.write_cfg(cfg, constants=constants(kinds, max_changers, max_params, ko),
+def tlc_export(verdict, kinds, max_changers, max_params, coverage=False, label="", ko="NoKo", previews=0):
+    cfg = os.path.join(common.SCRATCH_BASE, "c06_%d_%s.cfg" % (os.getpid(), common.digest([kinds, max_changers, max_params, ko, previews])))
+    tlc.write_cfg(cfg, constants=constants(kinds, max_changers, max_params, ko, previews),
                   invariants=INVARIANTS + ["ExportSig"])
     behs = []
     res = tlc.run("MC_PyCalls", cfg, on_tagged=lambda t, v: behs.append(v), collect_tags=False,
@@ -340,16 +365,18 @@ def main(tier):
     rnd = common.rng("c06")
     if tier == "quick":
         (r1, b1), (r2, b2), (r3, b3) = parallel([
-            lambda: tlc_export(verdict, "AllKinds", 1, 3, coverage=True, label="A"),
+            lambda: tlc_export(verdict, "AllKinds", 1, 3, coverage=True, label="A +discarded previews", previews=1),
             lambda: tlc_export(verdict, "AllKinds", 2, 2, label="B"),
             lambda: tlc_export(verdict, "AllKinds", 1, 1, label="K keyword-only tail", ko="KoOnly")])
         runs = [r1, r2, r3]
         b2 = [b for b in b2 if len(b["chg"]) == 2]
     else:
-        (r1, b1), (r3, b3) = parallel([
+        (r1, b1), (r3, b3), (r4, b4) = parallel([
             lambda: tlc_export(verdict, "AllKinds", 2, 3, coverage=True, label="A"),
-            lambda: tlc_export(verdict, "AllKinds", 1, 3, label="K keyword-only tail", ko="KoOnly")])
-        runs = [r1, r3]
+            lambda: tlc_export(verdict, "AllKinds", 1, 3, label="K keyword-only tail", ko="KoOnly"),
+            lambda: tlc_export(verdict, "AllKinds", 1, 3, label="P discarded previews", previews=1)])
+        runs = [r1, r3, r4]
+        b1 += [b for b in b4 if b["pre"]]
         b2 = []
     if verdict.machinery:
         return verdict.finish()
@@ -363,7 +390,9 @@ def main(tier):
             verdict.machinery_failure("changer %s never taken by TLC" % op)
     for b in b1 + b2 + b3:
         canon(b)
-    keyf = lambda b: json.dumps([b["sig0"], b["chg"]], sort_keys=True)  # noqa
+    if not any(b["pre"] == ["intro"] for b in b1) or not any(b["pre"] == ["same"] for b in b1):
+        verdict.machinery_failure("action Discard never taken by TLC")
+    keyf = lambda b: json.dumps([b["sig0"], b["chg"], b["pre"]], sort_keys=True)  # noqa
     b1.sort(key=keyf)
     b2.sort(key=keyf)
     # kind is a rendering dimension carried by the behaviour (spec constant Kinds)
@@ -414,7 +443,7 @@ def main(tier):
         ops = "+".join(c["op"] for c in beh["chg"])
         by_op.setdefault(ops, {"n": 0, "failed": 0})["n"] += 1
         if r["outcome"] == "changed":
-            nontrivial.add(common.digest([r["kind"], beh["sig0"], beh["chg"]]))
+            nontrivial.add(common.digest([r["kind"], beh["sig0"], beh["chg"], beh["pre"]]))
         if len(samples) < 5 and r["outcome"] == "changed" and not r["fails"] and replayed % 11 == 0:
             samples.append({"kind": r["kind"], "signature": pc.sig_text(beh["sig0"], r["kind"]),
                             "changers": beh["chg"], "expected_signature": pc.sig_text(beh["sig1"], r["kind"]),
@@ -426,7 +455,7 @@ def main(tier):
             verdict.failure(key, {"property": PROP, "key": key, "kind": r["kind"],
                                   "signature": pc.sig_text(beh["sig0"], r["kind"]),
                                   "changers": beh["chg"], "expected_signature": pc.sig_text(beh["sig1"], r["kind"]),
-                                  "at": r["at"], "outcome": r["outcome"], "exc": r.get("exc"),
+                                  "discarded_before": beh.get("pre"), "at": r["at"], "outcome": r["outcome"], "exc": r.get("exc"),
                                   "detail": r.get("detail"), "after": r.get("after"),
                                   "before": pc.render_sig_program(r["kind"], beh["sig0"],
                                                                   [s["c0"] for s in beh["sites"]])[0]})
